@@ -433,7 +433,7 @@ func init() { runners["C19"] = runC19 }
 func TestC19(t *testing.T) {
 	w := explore.NewWorker("C19")
 	defer w.Finish()
-	w.SetRule("blocklist shape {single IPv4, IPv4 range, single IPv6, IPv4+IPv6} x installation {at construction, by SetIPBlockList after the blocked peer is in the table / holds a token / has a query pending, each as first list or replacing an unrelated list} x passive on/off x path: ordered pairs (thorough: also ordered triples for two blocklist shapes) of 9 inbound datagram kinds from the blocked peer (every query method incl. tokened announce_peer and put, unsolicited response and error); reply/error to the query that was pending when the list was installed; Ping/FindNode/GetPeers/Get/Put to the blocked peer; Bootstrap, Announce, getput.Get, getput.Put over a network whose seeds and replies list the blocked peer; announce where the blocked peer answered get_peers before it was blocked; a 20-minute TableMaintainer run (the blocked entry turns questionable) with the blocked peer in the table; ordinary service of every method. Oracle: no datagram is ever written to a destination blocked at that moment; inbound from a blocked address causes no write and leaves table, stores, hooks and pending transactions unchanged; a pending query is not completed by a blocked reply; passive => no r/e written and every q carries ro=1, not passive => no q carries ro")
+	w.SetRule("blocklist shape {single IPv4, IPv4 range, single IPv6, IPv4+IPv6} x installation {at construction, by SetIPBlockList after the blocked peer is in the table / holds a token / has a query pending, each as first list or replacing an unrelated list} x passive on/off x path: ordered pairs (thorough: also ordered triples, all four blocklist shapes) of 9 inbound datagram kinds from the blocked peer (every query method incl. tokened announce_peer and put, unsolicited response and error); reply/error to the query that was pending when the list was installed; Ping/FindNode/GetPeers/Get/Put to the blocked peer; Bootstrap, Announce, getput.Get, getput.Put over a network whose seeds and replies list the blocked peer; announce where the blocked peer answered get_peers before it was blocked; a 20-minute TableMaintainer run (the blocked entry turns questionable) with the blocked peer in the table; ordinary service of every method. Oracle: no datagram is ever written to a destination blocked at that moment; inbound from a blocked address causes no write and leaves table, stores, hooks and pending transactions unchanged; a pending query is not completed by a blocked reply; passive => no r/e written and every q carries ro=1, not passive => no q carries ro")
 	idx := 0
 	defer func() { w.AddStates(len(c19States)) }()
 	run := func(h []string) {
@@ -471,7 +471,7 @@ func TestC19(t *testing.T) {
 								continue
 							}
 							run(append(append([]string(nil), base...), "path=inbound", "a="+a, "b="+b))
-							if w.Thorough() && (blk == "v4single" || blk == "both") {
+							if w.Thorough() {
 								for _, c3 := range c19Inbound {
 									run(append(append([]string(nil), base...), "path=inbound", "a="+a, "b="+b, "c="+c3))
 								}
